@@ -165,6 +165,9 @@ def run(tier):
         dl_ok, dl_gen, dl_dist, dl_out = vlib.run_design_level("MC_HandoverDesign.tla", "MC_HandoverDesign.cfg", scratch)
         if not dl_ok:
             V.machinery_error("design-level check of the specification failed (Handover.tla: exactly once, in order): " + dl_out[-500:])
+        lv_ok, lv_gen, lv_dist, lv_out = vlib.run_design_level("MC_HandoverLive.tla", "MC_HandoverLive.cfg", scratch)
+        if not lv_ok:
+            V.machinery_error("design-level liveness check of the specification failed (Handover.tla: eventual reception under a fair consumer): " + lv_out[-500:])
         mods = []
         for i, c in enumerate(cfgs):
             c["name"] = f"E15_{i:03d}"
@@ -213,7 +216,8 @@ def run(tier):
                                                      "source_py": source(did, next(c for c in cfgs if c["name"] == did))})
     trunc = [fam[k] for k, v in stats.items() if v[0] >= budget]
     cov = {"states": dist, "transitions": gen, "traces_validated_against_impl": len(designs), "configurations": len(cfgs),
-           "evaluations": gen, "design_level": {"what": "Handover.tla: exactly once, in order", "states": dl_dist, "transitions": dl_gen}, "distinct_nontrivial": sum(1 for v in stats.values() if v[1] >= 2),
+           "evaluations": gen, "design_level": {"what": "Handover.tla: exactly once, in order", "states": dl_dist, "transitions": dl_gen},
+           "design_level_liveness": {"what": "Handover.tla under a weakly fair consumer: every payload sent is eventually received; the slot clears again", "states": lv_dist}, "distinct_nontrivial": sum(1 for v in stats.values() if v[1] >= 2),
            "samples": [c["fam"] for c in cfgs[:: max(1, len(cfgs) // 4)][:4]], "truncated_configurations": trunc,
            "budget_transitions": budget, "exhaustive": not trunc,
            "rule": "wrapper per configuration (Mailbox / SyncFlag, payload width, tx/rx delay, one or two contexts, one clock or two "
